@@ -9,11 +9,11 @@ git apply $P || { echo "patch does not apply"; exit 2; }
 cleanup() {
   git -C /repo checkout -- .
   git -C /verif checkout -- evidence 2>/dev/null
-  (cd /verif && python3 -c 'import sys; sys.path.insert(0, "tools"); from lanes import build_lane; [build_lane(l) for l in ("rel", "dbg")]')
+  (cd /verif && python3 -c 'import sys; sys.path.insert(0, "tools"); from lanes import build_lane; import os; [build_lane(l) for l in dict.fromkeys(["rel", "dbg"] + ([os.environ["LANE"]] if os.environ.get("LANE") in ("op", "alt", "asan") else []))]')
 }
 trap cleanup EXIT
 cd /verif
 for id in "$@"; do
-  ./check $id --tier ${TIER:-quick} > /tmp/try_$id.log 2>&1; rc=$?
+  ./check $id --tier ${TIER:-quick} ${LANE:+--lane $LANE} > /tmp/try_$id.log 2>&1; rc=$?
   echo "RESULT $id exit=$rc $(grep -c '^VIOLATION' /tmp/try_$id.log) violation line(s): $(grep -m2 'signature:' /tmp/try_$id.log | tr '\n' ' ')"
 done
